@@ -1,15 +1,13 @@
-\* quick exhaustive part: all programs of <= 3 commands over menu "q", every resolution of
-\* the latitude points enabled, keyword not permitted (dict, plain maildir).
-\* The check generates this text at run time (harness/checks/c10.py cfg_text).
+\* sanity of the FULL menu: every single command from both initial states, all properties
 SPECIFICATION Spec
 CONSTANTS
   KwPermitted = FALSE
   Lat = {"lenient", "strict"}
   AppendKw = {"drop", "keep"}
-  Inits = {"std"}
-  MaxCmds = 3
-  MaxUid = 9
-  Profile = "q"
+  Inits = {"empty", "std"}
+  MaxCmds = 1
+  MaxUid = 12
+  Profile = "full"
   TwoLevel = FALSE
 INVARIANT TypeOK
 INVARIANT UidsBelowNext
